@@ -19,10 +19,14 @@ var keys = []string{"required", "exist", "either", "botheq", "to", "ge", "le", "
 
 // 大 (U+5927), 听 (U+542C), 丯 (U+4E2F), 丽 (U+4E3D), 乼 (U+4E7C), ħ (U+0127): runes whose low code-point byte equals a syntax
 // byte (' , / = |) - a splitter or parser that narrows runes to bytes confuses them with the syntax characters.
-var rawValues = []string{"", "1", "1~10", "a/b", "'/, ,:'", "-", "中", "a=b", "0", "'x'", "''", "(a)/(b)", "()", "(a", "b)", "大/听", "'大,听'"}
+var rawValues = []string{"", "1", "1~10", "a/b", "'/, ,:'", "-", "中", "a=b", "0", "'x'", "''", "(a)/(b)", "()", "(a", "b)", "大/听", "'大,听'",
+	// white space at the edges of a value is part of the value (a separator of one blank, a suffix that ends in a blank)
+	" ", "end ", " x", "\tx\n", "\u3000中\u3000", "x\\"}
 var messages = []string{"\x00none", "m", "ab", "中", "说明文字", "a=b", "x~y(z)/w", "'a,b'", "'需要,同时'", "=", "a|b", "1", "字", "必须大于1", "请听说明", "丽丯乼ħ", "'大,听'", "(x)",
 	// messages that mention the label words themselves: the label is still prepended, exactly once
-	"see explain: at least 1", "字段说明: 不能超过 100", "explain:", "说明:", "explain: twice explain:"}
+	"see explain: at least 1", "字段说明: 不能超过 100", "explain:", "说明:", "explain: twice explain:",
+	// white space at the edges of a message is part of the message
+	"must be set ", " m", "\t", "必填\u3000", " ", "ends with a backslash \\"}
 
 var zh = regexp.MustCompile("[一-龥]")
 
@@ -363,6 +367,9 @@ func run(c *runner.Ctx) {
 	noLoss("ascii", []string{"a", ",", "'", "|", "="}, n1)
 	noLoss("cjk-bytes", []string{"a", ",", "'", "|", "=", "\xe4", "\xb8", "\xad"}, n2)
 	noLoss("cjk", []string{"a", ",", "'", "中", "b"}, n1-2)
+	// a backslash is an ordinary character to the splitter: a quoted segment ends at the next quote whatever precedes it
+	noLoss("backslash", []string{"a", ",", "'", "\\"}, n1-1)
+	noLoss("blanks", []string{"a", ",", "'", " ", "\t"}, n1-2)
 	noLoss("cjk-low-byte-is-syntax", []string{"a", ",", "'", "大", "听", "丯", "ħ"}, n1-3)
 	noLoss("cjk-low-byte-is-syntax-2", []string{",", "'", "|", "=", "丽", "乼", "Ĭ"}, n1-3)
 }
